@@ -117,7 +117,7 @@ func init() {
 }
 
 func C06(r *eng.Run) {
-	r.Rule = "coefficient shapes with trailing-zero cohorts K*10^z at every one of the 12288 exponents x 2 signs, plus every two-digit pair at every pair position of the digit extractor, zeros at every exponent and specials: " +
+	r.Rule = "coefficient shapes with trailing-zero cohorts K*10^z at every one of the 12288 exponents x 2 signs, plus every two-digit pair at every pair position of the digit extractor, zeros at every exponent and specials, every sequence of up to four values formatted into one reused buffer (Append(buf[:0],...)), and the values reached by operation sequences: " +
 		"String, MarshalText, %v, Format/Append(e|f|g,-1) must equal the reference shortest-digits layout (strip trailing zeros, positional iff -4<=X<=5, >=2 exponent digits), and Parse/UnmarshalText/Sscan of the text must give back the same value and sign (independent decoder). " +
 		"Non-trivial = everything except coefficients without trailing zeros at exponent 0."
 	r.Assumptions = []string{"binary codec is the identity on bits (checked at start; decided by C12)", "the reference layout is the strconv %g/%e/%f shortest layout applied to the exact digits; it is bound to the installed strconv in C07 on every run"}
@@ -231,9 +231,53 @@ func C06(r *eng.Run) {
 	})
 	r.Phase("A3 zeros and specials", t0, nil)
 
+	// S: operation sequences with the usual buffer-reuse idiom: buf = Append(buf[:0], d, ...) over every sequence of
+	// up to four values from a small alphabet (specials, zeros, short and long finite values), starting from nil or
+	// from the slice an earlier MarshalText returned. Every output must be the text of its own value, whatever was
+	// formatted into the same memory before, and String/MarshalText of every alphabet value must be unchanged afterwards.
+	t0 = time.Now()
+	var seqVals []ref.Bits
+	seqVals = append(seqVals, ref.FromWords(0x7c00000000000000, 0), ref.FromWords(0x7800000000000000, 0), ref.FromWords(0xf800000000000000, 0),
+		MkBits(false, new(big.Int), 0), MkBits(true, big.NewInt(15), -1), MkBits(false, big.NewInt(1234), 0), MkBits(false, ref.Cmax, -20), MkBits(true, big.NewInt(1), 400))
+	nv := len(seqVals)
+	r.Par(nv*nv*nv*nv, func(w *eng.W, code int) {
+		seq := []int{code % nv, code / nv % nv, code / nv / nv % nv, code / nv / nv / nv}
+		for variant := 0; variant < 4; variant++ {
+			var buf []byte
+			if variant >= 2 {
+				buf, _ = D(seqVals[seq[0]]).MarshalText()
+			}
+			for step, k := range seq {
+				b := seqVals[k]
+				v := ref.Decode(b)
+				w.Set1I("buffer-reuse sequence", "", b, int64(code*4+variant))
+				var got, want string
+				if variant%2 == 0 {
+					buf = dec.Append(buf[:0], D(b), 'g', -1)
+					got, want = string(buf), textWant(v, 'g')
+				} else {
+					buf = D(b).Append(buf[:0], "v")
+					got, want = string(buf), textWant(v, 'g')
+				}
+				w.Eval()
+				if got != want {
+					w.R.Fail(eng.Case{Op: "buffer-reuse sequence", Args: []string{fmt.Sprint("values ", seq, " variant ", variant, " step ", step), b.Hex()}, Got: got, Want: want})
+				}
+			}
+		}
+		if code%64 == 0 {
+			for _, b := range seqVals {
+				checkText(w, b, ref.Decode(b), true)
+			}
+		}
+		w.Cell("buffer-reuse-sequences", true)
+	})
+	r.Bounds["buffer_reuse_sequences"] = nv * nv * nv * nv * 4
+	r.Phase("S buffer-reuse sequences", t0, nil)
+
 	// R: values reached by operation sequences on the real implementation (see reached.go)
 	reachedPhase(r, "R values reached by operation sequences", reachedAll(r), func(w *eng.W, b ref.Bits, v ref.Val) {
 		checkText(w, b, v, true)
 	})
-	r.Require("digits1", "digits34", "digits35", "digit-pair-sweep", "zero-every-exponent", "specials")
+	r.Require("buffer-reuse-sequences", "digits1", "digits34", "digits35", "digit-pair-sweep", "zero-every-exponent", "specials")
 }
